@@ -244,7 +244,13 @@ def delete_char(event: E) -> None:
     """
     Delete character before the cursor.
     """
-    deleted = event.current_buffer.delete(count=event.arg)
+    if event.arg < 0:
+        # When a negative argument has been given, this should delete before
+        # the cursor. (Just like `backward-delete-char` does the opposite.)
+        deleted = event.current_buffer.delete_before_cursor(count=-event.arg)
+    else:
+        deleted = event.current_buffer.delete(count=event.arg)
+
     if not deleted:
         event.app.output.bell()
 
